@@ -157,8 +157,11 @@ def manifest():
         ],
         "checks": checks,
         "not_applicable": na,
-        "notes": "Solver-based checking only. Exit 0 = all conditions confirmed within bounds; 1 = counterexample reproduced on the real "
-                 "code (VIOLATION line); 2 = inconclusive (never reported as success). See DESIGN.md.",
+        "notes": "Solver-based checking only. quick: exit 0 = every condition's path tree exhausted and every query unsat within the stated bounds; "
+                 "thorough = the quick plan judged strictly (floor) + a wider, wall-budgeted deep phase whose non-exhausted conditions are printed as "
+                 "PARTIAL and listed in the evidence (never counted as confirmed). 1 = counterexample reproduced on the real code (VIOLATION line); "
+                 "2 = inconclusive (never reported as success). Seeded changes and re-introduced defects with the checks that catch them: seeded/*/meta.json, "
+                 "DESIGN.md 8.7. See DESIGN.md 8.6 for tiers.",
     }
 
 
